@@ -80,6 +80,11 @@ class LineParser(object):
         for line in lines:
             fields = line.split(None, 4)
 
+            if len(fields) < 4:
+                raise ListingError(
+                    'Failed to parse MS-DOS listing line {}'
+                    .format(repr(line)))
+
             date_str = fields[0]
             time_str = fields[1]
 
